@@ -23,7 +23,8 @@ RULE = ("job = seed (+ optional (suite, version, EtM) grid cell) -> handshake, "
         "digest(scenario, tamper); non-trivial = the tamper fired on a "
         "protected record and the receiver processed it"
         ' Family hs_epoch (every cell): forgeries aimed at the first PROTECTED record of the handshake in one direction (foreign application_data-typed record in front, bit flip, truncated copy, reflection) => the receiver aborts the handshake with a fatal integrity/decoding alert.  byz_inner: a key-holding peer emits all-zero / empty inner plaintexts and a protected change_cipher_spec.'
-        ' After a rejected record the application reads once more: only honest, already decrypted bytes may come out.  Families inject_mid (unprotected record in the middle of a key epoch, every cell) and ku_replay (TLS 1.3: first record of the previous key epoch replayed right after a KeyUpdate).')
+        ' After a rejected record the application reads once more: only honest, already decrypted bytes may come out.  Families inject_mid (unprotected record in the middle of a key epoch, every cell) and ku_replay (TLS 1.3: first record of the previous key epoch replayed right after a KeyUpdate).'
+        " The receiver's transport may fail (timeout / EPIPE / reset) exactly while it writes its fatal alert: the rejection must still close the connection; protected CCS also with record padding.")
 LEVEL_TEXT = ("Seeded fault search: one wire fault per run, aimed with a "
               "fault-free dry run of the same seed so it lands inside "
               "protected traffic; every (suite, version, EtM) cell is hit in "
@@ -257,11 +258,13 @@ def op_gen_factory(byz):
             # plaintext (ciphertext is just the AEAD tag)
             from tlslite.messages import Message
             rl = conn._recordLayer
-            if op[2] == -2:
+            if op[2] in (-2, -3):
                 # a PROTECTED change_cipher_spec (RFC 8446 section 5: MUST be
                 # refused with unexpected_message)
                 def prot_ccs():
-                    body = rl._encryptThenSeal(bytearray([1, 20]), 23)
+                    body = rl._encryptThenSeal(
+                        bytearray([1, 20]) +
+                        bytearray(0 if op[2] == -2 else 5), 23)
                     for r in rl._recordSocket.send(Message(23, body)):
                         yield r
                 return prot_ccs
@@ -436,7 +439,7 @@ def run(job, streams=None):
             t["mask"] = 1
         else:
             # executed by the sender itself after its first record
-            extra_ops = [S, "byz_inner", [0, -1, 1, 5, 64, -1, -2, -2][
+            extra_ops = [S, "byz_inner", [0, -1, 1, 5, 64, -1, -2, -3][
                 ch.draw(8, "t.zeros")]]
             t = None
     if t is not None:
@@ -482,6 +485,12 @@ def run(job, streams=None):
         raise RuntimeError("handshake diverged from dry run")
     eps = {"c": pair.c, "s": pair.s}
     res_before = {w: eps[w].conn.session.resumable for w in "cs"}
+    # the transport of the receiver may fail exactly while it writes its
+    # fatal alert (stall / peer gone): rejection must still close
+    awf = [None, None, "timeout", "reset", "epipe", None][
+        ch.draw(6, "cfg.awf")]
+    awf_tap = taps.AlertWriteFault(eps[R].conn, eps[R].sock, awf) \
+        if awf else None
     st = sim_script.run_script(sim, eps, script2, op_gen_factory(None))
     fired = bool(m.fired) or extra_ops is not None
     rx = eps[R]
@@ -547,7 +556,10 @@ def run(job, streams=None):
         else:
             processed = True
             from tlslite.errors import TLSLocalAlert
-            if not isinstance(exc, TLSLocalAlert):
+            if awf_tap is not None and awf_tap.fired and \
+                    isinstance(exc, OSError):
+                pass    # the alert could not be written: transport error
+            elif not isinstance(exc, TLSLocalAlert):
                 v("wrong_error", "%s|%s" % (detail, type(exc).__name__),
                   "forged record surfaced as %r instead of a local fatal "
                   "alert" % (exc,))
@@ -590,6 +602,8 @@ def run(job, streams=None):
     probes = {}
     if again is not None:
         probes["read_after_rejection"] = 1
+    if awf_tap is not None and awf_tap.fired:
+        probes["alert_write_" + awf] = 1
     if fired:
         probes[kind] = 1
     if ku_at is not None:
